@@ -39,7 +39,7 @@ def statusTable : Nat → List Nat
   | 7 => [200, 2]
   | _ => []
 
-def mkParams (p d m r q st x : Nat) (dyn : Bool := false) : Params :=
+def mkParams (p d m r q st x : Nat) (dyn : Bool := false) (lat : Nat := 0) : Params :=
   { passive := p == 1,
     failDur := if p == 1 then d else 0,
     maxFails := if m == 0 then 1 else m,     -- reverseproxy.go:359-361
@@ -47,9 +47,10 @@ def mkParams (p d m r q st x : Nat) (dyn : Bool := false) : Params :=
     maxReq := if p == 1 then q else 0,       -- reverseproxy.go:1218-1223
     firstMax := x,                           -- an upstream's own max_requests wins (reverseproxy.go:1218-1223)
     badStatus := if p == 1 then statusTable st else [],
+    latency := p == 1 && lat == 1,
     dynamic := dyn }
 
-def outcomeNames : List String := ["ok", "e5", "c404", "c429", "c502", "c503", "rst", "hup", "pan", "her"]
+def outcomeNames : List String := ["ok", "sl", "e5", "c404", "c429", "c502", "c503", "rst", "hup", "pan", "her"]
 
 def parseStep (s : String) (K : Nat) : Option SStep :=
   match s.splitOn ":" with
@@ -64,6 +65,13 @@ def parseStep (s : String) (K : Nat) : Option SStep :=
       if p ≤ 1 && r ≤ 8 && st ≤ 7 && m ≤ 100 && q ≤ 100 && 1 ≤ x && x ≤ 100 then
         some (.load ks (mkParams p d m r q st x)) else none
     | _, _, _, _, _, _, _, _ => none
+  | ["L", ks, p, d, m, r, q, st, x, l] =>
+    -- tenth field: passive unhealthy_latency configured (then the ninth may be 0 = no own max_requests)
+    match parseKeys ks K, num p, num d, num m, num r, num q, num st, num x, num l with
+    | some ks, some p, some d, some m, some r, some q, some st, some x, some l =>
+      if p ≤ 1 && r ≤ 8 && st ≤ 7 && m ≤ 100 && q ≤ 100 && x ≤ 100 && l == 1 then
+        some (.load ks (mkParams p d m r q st x false l)) else none
+    | _, _, _, _, _, _, _, _, _ => none
   | ["Y", ks, p, d, m, r, q, st] =>
     -- a configuration whose upstreams come from a dynamic source returning `ks`
     match parseKeys ks K, num p, num d, num m, num r, num q, num st with
@@ -86,6 +94,13 @@ def parseStep (s : String) (K : Nat) : Option SStep :=
     | some n => if 1 ≤ n && n ≤ 50 then some (.ticks n) else none
     | none => none
   | _ => none
+
+/-- does the schedule load a configuration with unhealthy_latency?  (Such schedules must not let
+    time pass: how long a request stays parked would decide whether its round trip was slow.) -/
+def usesLatency : List SStep → Bool
+  | [] => false
+  | .load _ p :: rest => p.latency || usesLatency rest
+  | _ :: rest => usesLatency rest
 
 def totalTicks : List SStep → Nat
   | [] => 0
@@ -124,7 +139,8 @@ def runSched (K : Nat) : DState → List SStep → List String → Option (List 
   | d, st :: rest, acc =>
     match sstep d st with
     | none => none
-    | some (d1, ev) => runSched K { d1 with s := settle d1.s } rest (acc ++ [snapshot { d1 with s := settle d1.s } K ev])
+    | some (d1, ev) =>
+      runSched K { d1 with s := settle d1.s, aged := agedAfter d st } rest (acc ++ [snapshot { d1 with s := settle d1.s } K ev])
 
 def handleSched (k steps : String) : String :=
   match num k with
@@ -136,6 +152,7 @@ def handleSched (k steps : String) : String :=
     | none => "bad-op"
     | some sts =>
       if totalTicks sts > 99 then "bad-op" else
+      if usesLatency sts && totalTicks sts > 0 then "bad-op" else
       match runSched K dinit sts [] with
       | none => "bad-op"
       | some toks => " ".intercalate toks
@@ -154,7 +171,7 @@ def stressOutcome (seed i : Nat) : String :=
   | _ => "abort"
 
 def stressParams : Params :=
-  { passive := true, failDur := 100, maxFails := 100, retries := 0, maxReq := 0, firstMax := 0, badStatus := [500], dynamic := false }
+  { passive := true, failDur := 100, maxFails := 100, retries := 0, maxReq := 0, firstMax := 0, badStatus := [500], latency := false, dynamic := false }
 
 /-- one request from entry to return, on Host object `i % 2`; returns the new state and how the
     handler returned -/
